@@ -47,6 +47,12 @@ CRYSTAL_CONTRACTS = {
                  'reduce / minlattice / center / gengroup work on the fields of the crystal only (they receive no constructor argument)']),
     'incell': dict(relpath='onsager/crystal.py', qualname='incell', params={'vec': ALIAS}, callees={}, caches=()),
 }
+# C25 / C20: the site vector basis handed out is a new object each time (FullVectorBasis normalises what it receives IN PLACE)
+VECTORBASIS_CONTRACTS = {
+    'Crystal.VectorBasis': dict(relpath='onsager/crystal.py', qualname='Crystal.VectorBasis', params={'self': VALUE, 'ind': VALUE},
+                                callees={'reduce': FRESH, 'VectorBasis': FRESH, 'g.eigen': FRESH}, globals=('CombineVectorBasis',), caches=(),
+                                assumed=['functools.reduce over a list of new objects with CombineVectorBasis returns a new object or one of the list elements (never stored state)']),
+}
 CLASS_FIELDS = [('onsager/GFcalc.py', 'GFCrystalcalc', ['D', 'eta'])]
 
 
